@@ -82,3 +82,29 @@ def ranked_listed_nth(bs: Seq(Ballot), n: Int, C: CSet, j: Int) -> Bool:
 @lemma(induct="n")
 def all_ranked_ne_prefix(bs: Seq(Ballot), j: Int, n: Int) -> Bool:
     return implies(0 <= j and j <= n and all_ranked_ne(bs, n), all_ranked_ne(bs, j))
+
+
+# ---------------------------------------------------------------- add_missing_cands
+from specs.base import union_upto  # noqa: E402
+from specs.transfers import wrank  # noqa: E402
+
+
+@spec
+def amc_rank(r: Seq(CSet), C: CSet) -> Seq(CSet):
+    """ranking r with the candidates of C it does not list appended as one last tied position (if there are any)"""
+    return r + ((C - union_upto(r, len(r))),) if len(C - union_upto(r, len(r))) > 0 else r
+
+
+@spec
+def amc_ballot(b: Ballot, C: CSet) -> Ballot:
+    return Ballot(id=b.id, weight=b.weight, voter_set=b.voter_set, ranking=amc_rank(b.ranking, C))
+
+
+@spec
+def amc_prefix(bs: Seq(Ballot), n: Int, C: CSet) -> Seq(Ballot):
+    return () if n <= 0 else amc_prefix(bs, n - 1, C) + (amc_ballot(bs[n - 1], C),)
+
+
+@lemma(induct="n")
+def amc_prefix_len(bs: Seq(Ballot), n: Int, C: CSet) -> Bool:
+    return implies(n >= 0, len(amc_prefix(bs, n, C)) == n)
